@@ -17,11 +17,11 @@ class C04(Prop):
     level_text = ("Theorems for EVERY byte string and EVERY read-block size B >= 1 (FASTA, text and DNA/RNA/amino digital mode): reading with sqascii_Read from esl_sqfile_Open on returns exactly the records and the final status of the declarative parser specFasta (30 lines of dropWhile/takeWhile/filter over the list of file bytes): name, description, residues, the true byte offsets roff/hoff/doff/eoff and L (read_all_eq_specFasta; corollary read_all_block_size_independent); "
                   "Read, ReadInfo and ReadSequence agree field by field from every ready handle (read_readInfo_readSequence_agree, with the closed forms readInfo_closed_form / readSequence_closed_form); "
                   "the forward ReadWindow series of a record, for every request stream (C_k >= 0, W_k >= 1), is exactly the declarative window series specWindows of the residues Read returns - context = min(C, previous window) preceding residues, min(W, left) new ones, 1-based contiguous coordinates, residues R[start..end] - then eslEOD with L = |R|, same name/acc/desc/roff/hoff/doff, cursor where Read leaves it (windows_eq_read; windows_concat_eq_read: the new parts concatenate to Read's residues; windows_coords; file_windows_eq_specFasta: the loop over a whole file, from open on, returns the specWindows of specFasta's records), on top of the closed form of read_nres for every B (read_nres_closed_form); "
-                  "whole-sequence ReadBlock fills its slots with the next records of the same parser (readBlock_short_eq_read); reverse-strand windows: the schedule tiles 1..L downwards (rev_windows_tile) and, when the handle holds no line geometry (brute-force addressing), every reverse window IS esl_sq_ReverseComplement of the residues start..end of the scanned record (rev_first_window_eq_revcomp_slice, rev_next_window_eq_revcomp_slice), on top of read_nres with nskip > 0 in closed form; "
+                  "whole-sequence ReadBlock fills its slots with the next records of the same parser (readBlock_short_eq_read); reverse-strand windows: the schedule tiles 1..L downwards (rev_windows_tile) and, when the handle holds no line geometry (brute-force addressing), every reverse window IS esl_sq_ReverseComplement of the residues start..end of the scanned record (rev_first_window_eq_revcomp_slice, rev_next_window_eq_revcomp_slice), and likewise under line / residue addressing when the data really has the geometry bpl/rpl promise (rev_window_eq_revcomp_slice_line / _residue), on top of read_nres with nskip > 0 in closed form; "
                   "write + re-read (text and digital mode): specFasta applied to what esl_sqascii_WriteFasta writes for any list of writable records returns exactly these records (write_read_roundtrip, write_read_roundtrip_digital); line-based formats (EMBL/UniProt/GenBank/DDBJ): loadbuf in line mode delivers the next line of the FILE for every B (loadbuf_line_closed_form), header_embl / header_genbank and the WHOLE of sqascii_Read return the same status and the same ESL_SQ (every field) for any two block sizes, from open on through every record of the file, likewise ReadInfo, ReadSequence, forward ReadWindow and whole-sequence ReadBlock (read_all_linebased_block_size_independent, read_linebased_block_size_independent, readInfo_readSequence_linebased_block_size_independent, readWindow_readBlock_linebased_block_size_independent; by simulation). "
                   "Tie: the executable line-by-line model of the ascii reader (FASTA, EMBL/UniProt, GenBank/DDBJ, daemon, hmmpgmd, autodetection; block size B a parameter) is compared exactly with the ASan/UBSan build over Read / ReadInfo / ReadSequence / windows on both strands / ReadBlock (short and long-target) / FASTA round trip x text and digital mode x B swept over 1..4097 (fixed list, uniform, and the sizes that put a block boundary inside/at the end of the header line, at every '>', between CR and LF, at the end of the file), "
                   "and agreement monitors (records equal across read paths, block sizes and modes; offsets are the true byte positions, also on CRLF files; windows reassemble the sequence; reverse strand = reverse complement; write+re-read reproduces the records) give the concrete failing input.")
-    level_note = ("Not theorems (exact differential run + monitors only): a declarative parser for the line-based formats (EMBL/UniProt, GenBank/DDBJ: block-size independence of Read/ReadInfo/ReadSequence/forward ReadWindow/whole-sequence ReadBlock is a theorem; Read = a declarative spec and cross-call agreement there are not), daemon/hmmpgmd, reverse-strand windows when the handle holds a line geometry (bpl, rpl > 0: depends on the tracker's promise, see the known finding), long-target ReadBlock, ReadWindow on a record whose data holds an illegal byte (the window theorems assume the whole-record read succeeds). "
+    level_note = ("Not theorems (exact differential run + monitors only): a declarative parser for the line-based formats (EMBL/UniProt, GenBank/DDBJ: block-size independence of Read/ReadInfo/ReadSequence/forward ReadWindow/whole-sequence ReadBlock is a theorem; Read = a declarative spec and cross-call agreement there are not), daemon/hmmpgmd, that the line-geometry tracker's bpl/rpl > 0 imply the geometry hypothesis of the reverse-window / FetchSubseq theorems (false in general: the known finding), long-target ReadBlock, ReadWindow on a record whose data holds an illegal byte (the window theorems assume the whole-record read succeeds). "
                   "The same files are also read through a real gzip -dc pipe and through standard input (emulated with freopen in a child) and compared with the model; the alignment-as-sequences branch is not modelled. Known: on a pipe the four offsets come from a failing ftello() (known_findings.d/C04.json), only they are excluded from the comparison there. Known finding: the bytes/residues-per-line tracker accepts a longer last line (reverse windows then fail) - see known_findings.d/C04.json.")
     assumptions = ["fread returns min(B, remaining) bytes; allocation never fails (eslEMEM paths not modelled)",
                    "the model mirrors esl_sqio_ascii.c by hand; fidelity is checked by the differential run only",
